@@ -60,9 +60,8 @@ func NewMessageBuffer(log logging.Logger, pending int, maxSize int, timeout time
 func (m *MessageBuffer) Close() error {
 	verifhook.AwaitLock("pubsub.Close", 0, &m.l)
 	m.l.Lock()
-	defer m.l.Unlock()
-
 	if m.closed {
+		m.l.Unlock()
 		return ErrClosed
 	}
 
@@ -72,9 +71,13 @@ func (m *MessageBuffer) Close() error {
 	// to the connection before it is closed.
 	m.clearPending()
 
-	m.pendingTimer.Stop()
 	m.closed = true
 	close(m.Queue)
+	m.l.Unlock()
+
+	// [Stop] waits for a running timer callback to return and that callback
+	// acquires [m.l], so it must not be called while holding the lock.
+	m.pendingTimer.Stop()
 	return nil
 }
 
